@@ -351,7 +351,7 @@ pub fn run(ctx: &Ctx) {
     ctx.subspace("interval: 9 own timeouts x 4 keepalive options x advertised timeouts (dense below 400, sampled/all above)", total, !ctx.quick());
     ctx.sample("interval", || serde_json::to_value(&cases[cases.len() / 3]).unwrap());
     // several peers + wire observation
-    let n: u32 = ctx.tier.pick(300, 5_000);
+    let n: u32 = ctx.tier.pick(800, 8_000);
     ctx.proptest(
         "pt-interval",
         n,
@@ -372,7 +372,7 @@ pub fn run(ctx: &Ctx) {
 
     // (b) meshes
     let grid: [u32; 9] = [2, 3, 59, 60, 119, 120, 121, 300, 1000];
-    let nm: u32 = ctx.tier.pick(120, 2_000);
+    let nm: u32 = ctx.tier.pick(300, 3_000);
     ctx.proptest(
         "pt-mesh",
         nm,
